@@ -21,6 +21,7 @@ from ..statsmodel import StatsModel, by_ref
 from ..symex import Summarizer, Unsupported
 from ..types import RESULT
 from .C02 import err_variant
+from ..degree import max_degree
 from .C03 import RegionCheck, monotone_in
 
 PID = 'C05'
@@ -35,71 +36,6 @@ def ok(v):
 
 def err(v):
     return ('adt', RESULT, 1, (v,))
-
-
-def max_degree(t, degs):
-    """Largest |scaling degree| (data x -> c*x) over the subterms of t, or None when a subterm is not homogeneous.
-    degs: degree of the state symbols (None: a log-space quantity - only exp(..) of it scales, with degree 1)."""
-    best = [Fraction(0)]
-
-    class Mixed(Exception):
-        pass
-
-    def deg(u):
-        k = u[0]
-        if k in ('int', 'flt', 'bool'):
-            return 'any' if (k != 'bool' and not isinstance(u[1], str) and u[1] == 0) else Fraction(0)
-        if k == 'sym':
-            d = degs.get(u[1], Fraction(0))
-            return Fraction(0) if d is None else d
-        if k == 'op':
-            n, a = u[1], u[2]
-            if n in ('zero',):
-                return 'any'
-            if n in ('one', 'epsilon'):
-                return Fraction(0)
-            if n == 'exp':
-                # exp of a log-space mean scales like the data; its argument is a logarithm (degree 0)
-                r = Fraction(1)
-            elif n in ('i2f', 'f2f', 'neg', 'abs', 'f2i', 'i2i', 'ref'):
-                r = deg(a[0])
-            elif n == 'mul':
-                d1, d2 = deg(a[0]), deg(a[1])
-                r = 'any' if 'any' in (d1, d2) else d1 + d2
-            elif n == 'div':
-                d1, d2 = deg(a[0]), deg(a[1])
-                r = 'any' if d1 == 'any' else d1 - (Fraction(0) if d2 == 'any' else d2)
-            elif n in ('add', 'sub', 'fmin', 'fmax', 'min', 'max'):
-                d1, d2 = deg(a[0]), deg(a[1])
-                if d1 == 'any':
-                    r = d2
-                elif d2 == 'any' or d1 == d2:
-                    r = d1
-                else:
-                    raise Mixed()
-            elif n == 'sqrt':
-                d1 = deg(a[0])
-                r = d1 if d1 == 'any' else d1 / 2
-            elif n == 'ln':
-                deg(a[0])
-                r = Fraction(0)
-            elif n == 'powi':
-                d1 = deg(a[0])
-                e = a[1][1] if a[1][0] == 'int' else None
-                if e is None:
-                    raise Mixed()
-                r = d1 if d1 == 'any' else d1 * e
-            else:
-                raise Mixed()
-            if r != 'any':
-                best[0] = max(best[0], abs(r))
-            return r
-        raise Mixed()
-    try:
-        deg(t)
-    except Mixed:
-        return None
-    return best[0]
 
 
 def whole_program(chk, facts, nf_, key, where, clabel, tname, kind, kname, inner_kind):
